@@ -102,12 +102,32 @@ void run_width(const Case &c, pbt::Ctx &ctx) {
     jm::Entropy e(c.bytes);
     e.pos = c.bytes.size() / 2;
     const uint32_t suffixes[] = {'x', ',', ']', '}', '[', '{', '"', '0', 0, ':', 'n', '-', 0x80 + e.below(0x70), 0x21 + e.below(0x5E)};
-    for (uint32_t s : suffixes) {
+    std::vector<uint32_t> sfx(std::begin(suffixes), std::end(suffixes));
+    if (width >= 2) { // units that are not whitespace although their low byte is a whitespace code, and other wide units
+        for (uint32_t w : {0x0120u, 0x2020u, 0x0109u, 0x4E0Au, 0x010Du, 0x300Au, 0xFF0Du, 0x2009u, 0xFEFFu, 0x00A0u, 0x3000u, 0x0100u + e.below(0xFE00)}) {
+            sfx.push_back(w);
+        }
+        if (width == 4) {
+            sfx.push_back(0x1F620);
+            sfx.push_back(0x1000A);
+            sfx.push_back(0x10FF09);
+        }
+    } else {
+        sfx.push_back(0xA0);
+        sfx.push_back(0x85);
+    }
+    for (uint32_t s : sfx) {
         jm::Units u = units;
         u.push_back(s);
         must_reject(u, "trailing-accepted", "document + trailing unit");
         u.insert(u.end() - 1, ' ');
         must_reject(u, "trailing-accepted", "document + space + trailing unit");
+        // the same unit in front of the document: not "one complete value optionally surrounded by whitespace" either
+        jm::Units l = units;
+        l.insert(l.begin(), s);
+        if (s != '[' && s != '{' && s != '"' && s != '-' && s != '0') { // (these would start another value: a different malformed shape, still rejected)
+            must_reject(l, "leading-accepted", "leading unit + document");
+        }
     }
     // closing brackets: every structural closer replaced by the other kind; the final one also removed (= longest prefix)
     for (size_t pos : d.st.closers) {
